@@ -84,6 +84,13 @@ impl Steady {
         let prev: f64 = self.diffs[n - 8..n - 4].iter().sum();
         last > 4.0 * prev && last.is_finite()
     }
+    /// no two successive periods of the last eight agree even to 1e-6 of the peak: the output
+    /// does not repeat at all (as opposed to repeating down to a slowly decaying tail, which
+    /// happens when rate/20 is not an integer and the pulse moves by one sample every other frame)
+    pub fn never_repeats(&self) -> bool {
+        let n = self.diffs.len();
+        n >= 8 && self.diffs[n - 8..].iter().all(|d| *d > 1e-6 * self.peak)
+    }
     /// ln|H| at harmonic j (angular frequency 2*pi*j/p)
     pub fn log_mag(&self, j: usize) -> f64 {
         let w = 2.0 * std::f64::consts::PI * j as f64 / self.p as f64;
